@@ -230,6 +230,42 @@ def discharge(run, formula, npc=None, nax=None, timeout_ms=10000, extra=()):
     return 'unknown', why, dt
 
 
+def arm_deadline(chk, seconds):
+    """Safety net for the supervised child process: if the check is still running after `seconds` (a solver call that ignores both its
+    timeout and the interrupt), report what was decided so far plus a checker error and leave.  Violations already recorded still
+    dominate the exit code; a hang alone is never a verdict."""
+    import sys
+    import threading
+    if os.environ.get('PYVC_CHILD') != '1':
+        return None
+
+    def expire():
+        try:
+            chk.error('%s.wall_clock' % chk.pid, 'the check did not finish within %d s (a solver call did not return); obligations decided so far are reported' % seconds)
+            rc = chk.finish(min_obligations=0)
+        except BaseException:       # noqa
+            rc = 3
+        sys.stdout.flush()
+        sys.stderr.flush()
+        os._exit(rc if rc in (1, 3) else 3)
+    t = threading.Timer(seconds, expire)
+    t.daemon = True
+    t.start()
+    return t
+
+
+def leave(rc):
+    """End of a check run as the supervised child process (pyvc.check): leave without interpreter teardown.  After a solver call was
+    interrupted by the watchdog, z3's context destructor can hang or crash at exit (observed: minutes); the verdict is already written
+    and printed at this point, so nothing is lost."""
+    import sys
+    if os.environ.get('PYVC_CHILD') == '1':
+        sys.stdout.flush()
+        sys.stderr.flush()
+        os._exit(rc)
+    return rc
+
+
 # ------------------------------------------------------------------------------------------ contracts
 class Inst:
     __slots__ = ('verdict', 'model', 'dt', 'path', 'formula')
